@@ -18,7 +18,7 @@ BUDGET = {"quick": 240, "thorough": 1800}
 
 
 def configs(tier):
-    cs = [Config(levels=1, ndisks=2, contents=["c0/content", "c1/content"]),
+    cs = [Config(levels=1, ndisks=2, contents=["c0/content", "c1/content"], uuid=True),
           Config(levels=2, ndisks=3, hashsize=8, hashkind="spooky2", contents=["c0/content", "d1/.content", "c1/content"],
                  splits={0: 2, 1: 2}, parity_limit=6144)]
     # disks whose whole recorded state is one symlink / one empty directory
@@ -64,6 +64,18 @@ def step(L, op, res, hist):
         c = C.decode(raw)
     except C.ContentError as e:
         return [dict(kind="content-undecodable", where=where, err=str(e))], {}
+    # what is saved derives from what was loaded: DELETED positions keep the hash recorded there before the command
+    cb = getattr(L, "content_before", None)
+    if op is not None and op[0] == "cmd" and cb:
+        from vp import parity as P
+        try:
+            c0 = C.decode(cb)
+        except C.ContentError:
+            c0 = None
+        if c0 is not None and c0.block_size == c.block_size and c0.hash_size == c.hash_size:
+            for o in P.deleted_continuity(c0, c):
+                o["where"] = where
+                v.append(o)
     # independent encoder == tool bytes
     enc = C.encode(c, now=L.time)
     if enc != raw:
